@@ -80,6 +80,24 @@ def sym_true(fn):
     return True if fn() else False
 
 
+def concretize(x):
+    """Case-split a symbolic int over its feasible values: the solver picks a model value v, the path
+    continues under x == v, and the x != v side is explored on a later path.  Needs a finite range in
+    the pre-condition.  Cheaper than comparing x at every step (2 solver calls per path)."""
+    if type(x) is int:
+        return x
+    if HAVE_CH:
+        from crosshair.tracers import ResumedTracing, is_tracing
+        from crosshair.statespace import optional_context_statespace
+        from crosshair.core import realize
+        if optional_context_statespace() is not None:
+            if is_tracing():
+                return int(realize(x))
+            with ResumedTracing():
+                return int(realize(x))
+    return int(x)
+
+
 def concrete_arrays():
     """Whole-transaction harnesses: CrossHair's SymbolicArray lacks frombytes."""
     if HAVE_CH:
